@@ -201,7 +201,9 @@ def parseInput (s : Str) : Str :=
 Every typed front end replaces each element by `_` before the shape is parsed, collecting the element texts.
 The loops run `while _string.contains(open)`; `fuel` bounds the iterations (`s.length + 1` suffices when every
 iteration shortens the text or removes one opener; running out of fuel stands for a loop that does not end and
-is reported as `panic`). -/
+is reported as `panic`).  Proved in `ArrProofs/Props/C18.lean`: both loops end on every text (`tuple_loop_ends`:
+`count('(') + 1` iterations, `list_loop_ends`: `count('&') + 1`; `typed_loops_fuel_suffices`: the fuel given below
+is never what decides). -/
 
 /-- `array_tuple!` (`helpers.rs:41-48`): `start = find("(")`, `end = find(")")` (from the beginning of the text),
 push `s[start..=end]` without `"`, `replace_range(start..=end, "_")` -/
